@@ -111,7 +111,10 @@ def gen_arrays(ctx, tier):
         nd = int(rng.integers(1, 4))
         shape = tuple(int(rng.integers(1, 7 if nd > 1 else 200)) for _ in range(nd))
         nvals = int(rng.integers(1, 6))
-        pool = np.concatenate([rng.normal(size=nvals), rng.choice(ALPHA_ARG, size=2)])
+        base = rng.normal(size=nvals)
+        # near-ties: distinct doubles that differ by one ulp / a relative 1e-10 .. 1e-13
+        near = np.concatenate([np.nextafter(base, np.inf), base * (1 + 1e-10), base * (1 - 1e-12), base + 1e-13])
+        pool = np.concatenate([base, rng.choice(near, size=nvals), rng.choice(ALPHA_ARG, size=2)])
         a = rng.choice(pool, size=shape)
         a[rng.random(shape) < rng.choice([0.0, 0.2, 0.7])] = np.nan
         yield a, f"rand{nd}d"
@@ -129,7 +132,9 @@ def gen_batches(ctx, tier):
         nd = int(rng.integers(1, 4))
         shape = tuple(int(rng.integers(1, 5 if nd > 1 else 60)) for _ in range(nd))
         nvals = int(rng.integers(1, 5))
-        pool = np.concatenate([rng.normal(size=nvals), [0.0, -0.0]])
+        base = rng.normal(size=nvals)
+        near = np.concatenate([np.nextafter(base, np.inf), base * (1 + 1e-10), base * (1 - 1e-12)])
+        pool = np.concatenate([base, rng.choice(near, size=nvals), [0.0, -0.0]])
         u = rng.choice(pool, size=shape)
         u[rng.random(shape) < rng.choice([0.0, 0.3, 0.8])] = np.nan
         if rng.random() < 0.05:
